@@ -16,7 +16,7 @@ NEEDS = ["harness", "cli"]
 RULE = ("L: shapes with 1-6 axes (lengths 1-7, plus one array with > 8192 entries per shard) x values {integers, dyadics, random doubles, wide "
         "exponents, +-0, subnormals, 1e+-300, max double, +-inf, NaN, tiny doubles whose top byte is an ASCII whitespace byte (as the LAST element)} x precision 0..17; npy: bits identical after write->read; text: every printed "
         "finite token d satisfies |d - x| <= 0.5*10^-p exactly and the value read back is float(d) bit for bit (NaN<->NaN, inf<->inf). C: writers "
-        "{create, view, fold} x formats {text, npy} x transport {file, pipe} (the -o path absent, empty, holding a longer earlier spectrum or longer garbage, or being the input itself; the file must equal what the same command writes to a pipe) -> readers {view, fold, stat} via {stdin pipe, regular file (stdin /dev/null or an idle pseudo-terminal), /dev/stdin, named pipe} with auto-detection; text->npy->text at "
+        "{create, view, fold} x formats {text, npy} x transport {file, pipe} (the -o path absent, empty, holding a longer earlier spectrum or longer garbage, or being the input itself; the file must equal what the same command writes to a pipe) -> readers {view, fold, stat} via {stdin pipe, regular file with a conventional / misleading / no extension (stdin /dev/null or an idle pseudo-terminal), /dev/stdin, named pipe} with auto-detection; text->npy->text at "
         "the same precision reproduces the text when values have <= 15 significant digits. Non-trivial: non-constant data; distinct = digest(shape, bits, precision).")
 ASSUMPTIONS = ["Python's float(str) is correctly rounded (IEEE round-half-even), used as the reference for reading decimals",
                "-0 and 0 are the same number for text; NaN payloads only compared for npy"]
@@ -177,7 +177,7 @@ def check_C(S, p):
         S.observe("writer_format_transport", "%s/%s/%s" % (writer, fmt, transport))
         if writer != "create" and transport == "pipe" and w.rc == 0:
             # the same conversion as typed at a shell prompt: input named by path, stdin an idle terminal, stdout redirected
-            wt = cli.sfs(args + [E.tmpfile(src, ".in")], stdin_tty=True)
+            wt = cli.sfs(args + [E.tmpfile(src, rng.choice([".in", ".npy", ".sfs", ".txt", ""]))], stdin_tty=True)
             S.count("C_matrix_runs")
             S.count("C_terminal_stdin_runs")
             if wt.rc != 0 or wt.out != produced:
@@ -193,7 +193,8 @@ def check_C(S, p):
                 r = cli.sfs(reader, stdin=produced)
             elif via == "path":
                 tty = rng.random() < 0.5
-                r = cli.sfs(reader + [E.tmpfile(produced, ".in")], stdin_tty=tty)
+                # the name of a spectrum file is not part of the spectrum: text in `x.npy`, npy in `x.sfs` / `x.txt`, no extension
+                r = cli.sfs(reader + [E.tmpfile(produced, rng.choice([".in", ".npy", ".sfs", ".txt", ".NPY", ""]))], stdin_tty=tty)
                 if tty:
                     S.observe("reader_transport", "%s/path with a terminal on stdin" % reader[0])
             elif via == "dev-stdin":
